@@ -45,6 +45,8 @@ def jobs(tier, seed):
                   gseed=seed + 4, scheds=3, lazy=[0, 50, 70], p_fail=0.05, name="loop-fork-split")
     # decision-shape family (exhaustive in the thorough tier, a rotating slice in the quick tier): every acyclic edge set over 4 tasks with a join x condition succeeded/failed per edge x outcome per task (4128 definitions)
     js += family_slices("orders", 4128, 128, tier, seed + 1, parts=2, gen="cshape", p_fail=0.0, max_orders=120, max_completions=6, name="decision-shapes-orders")
+    # engine commands beside each other (exhaustive family: one or two transitions x condition x {implicit continue, continue, noop, fail, noop+fail, task+fail, task} x publish x outcome; 3612 definitions)
+    js += family_slices("conduct", 3612, 128, tier, seed + 1, parts=2, gen="cmds", scheds=1, lazy=[0], p_fail=0.0, name="engine-command-combinations")
     return js
 
 
